@@ -774,6 +774,21 @@ def reachable_bodies(prog, roots, stay=None, limit=4000):
     return list(seen.values())
 
 
+def deep_calls(body, operand):
+    """names of every call in the full backward closure of an operand"""
+    locs, _ = deep_locals(body, operand)
+    names = set()
+    for l in locs:
+        for d in body.defs_of(l):
+            if d[0] == "call":
+                names.update(fn_names(d[3]["func"]))
+    if body.kind == "coroutine":
+        for a in awaits(body):
+            if a.result in locs and a.create is not None:
+                names.update(fn_names(a.create["func"]))
+    return names
+
+
 def deep_locals(body, operand):
     """all locals in the full backward closure of an operand (every call is transparent in all args)"""
     start = op_place(operand) if not isinstance(operand, Place) else operand
@@ -875,3 +890,173 @@ def nonempty_guarded(body, site_bb, operand):
                 if e and edge_dominates(body, e, site_bb):
                     return (bb, k)
     return None
+
+
+# --------------------------------------------------------------------------
+# E5 — await / cancellation model
+
+class Select:
+    def __init__(self, call):
+        self.call = call          # awaited poll_fn SemCall
+        self.branches = []        # creating SemCalls of the branch futures, in branch order
+        self.arms = {}            # branch index -> first block of the arm body
+        self.out_local = None
+
+
+def selects(body):
+    """tokio::select! sites of a coroutine: branch futures and the arm each one leads to."""
+    out = []
+    sc = sem_calls(body)
+    for c in sc:
+        if not (c.awaited and c.is_("core::future::poll_fn::poll_fn", "tokio::macros::support::poll_fn",
+                                    "~::poll_fn") and any("select" in m for m in (c.term.get("mac") or []))):
+            continue
+        s = Select(c)
+        # branch futures: into_future calls of this select expansion (same source line), in dominance order
+        intos = [x for x in sc if x.is_("core::future::into_future::IntoFuture::into_future")
+                 and any("select" in m for m in (x.term.get("mac") or []))
+                 and body.dominates(x.bb, c.bb) and x.term.get("line") == c.term.get("line")]
+        intos.sort(key=lambda x: len(body.dominators().get(x.bb, ())))
+        for x in intos:
+            src = op_place(x.args[0])
+            creator = None
+            if src is not None:
+                ch = trace_back(body, src.local)
+                cur, d = ch[-1]
+                # `_27 = move _20.0` with `_20 = (move _21, move _23)`
+                if d is not None and d[0] == "assign" and d[3]["k"] == "use":
+                    p = op_place(d[3]["op"])
+                    if p is not None and len(p.proj) == 1 and isinstance(p.proj[0], list) and p.proj[0][0] == "f":
+                        dd = single_def(body, p.local)
+                        if dd is not None and dd[0] == "assign" and dd[3]["k"] == "agg" and dd[3]["agg"] == "tuple":
+                            e = op_place(dd[3]["ops"][p.proj[0][1]])
+                            if e is not None:
+                                ch = trace_back(body, e.local)
+                                cur, d = ch[-1]
+                if d is not None and d[0] == "call":
+                    creator = [y for y in sc if y.bb == d[1]]
+                    creator = creator[0] if creator else None
+            s.branches.append(creator)
+        # arms: switch on the discriminant of the select output
+        s.out_local = c.result
+        for br in branches_on(body, c.result, c.done_bb):
+            for lab, tg in br.labels.items():
+                if isinstance(lab, str) and lab.startswith("=") and lab[1:].isdigit():
+                    s.arms[int(lab[1:])] = tg
+            if s.arms:
+                break
+        out.append(s)
+    return out
+
+
+TAKE_CALLS = (
+    "p2panda_stream::processors::processor::Processor::next",
+    "tokio::sync::mpsc::unbounded::UnboundedReceiver::recv", "tokio::sync::mpsc::bounded::Receiver::recv",
+    "futures_util::stream::stream::StreamExt::next", "tokio_stream::stream_ext::StreamExt::next",
+    "futures_core::stream::Stream::poll_next",
+)
+POP_CALLS = ("alloc::collections::vec_deque::VecDeque::pop_front", "alloc::collections::vec_deque::VecDeque::pop_back",
+             "alloc::vec::Vec::pop")
+
+
+class TakeEvent:
+    def __init__(self, kind, bb, item_local, what, site):
+        self.kind = kind
+        self.bb = bb
+        self.item = item_local
+        self.what = what
+        self.site = site
+
+    def __repr__(self):
+        return "<take %s %s @bb%d %s>" % (self.kind, self.what, self.bb, self.site)
+
+
+def payload_aliases(body, local):
+    """locals carrying the value in `local` or a payload extracted from it (any downcast + field)."""
+    al = {local}
+    changed = True
+    while changed:
+        changed = False
+        for bb, k, pl, rv, st in body.assigns():
+            if pl.local in al:
+                continue
+            src = None
+            if rv["k"] == "use":
+                src = op_place(rv["op"])
+            elif rv["k"] == "ref":
+                continue
+            if src is not None and src.local in al:
+                al.add(pl.local)
+                changed = True
+        for bb, t in body.calls():
+            d = Place(t["dest"])
+            if d.local in al or not t["args"]:
+                continue
+            p = op_place(t["args"][0])
+            if p is not None and p.local in al and callee_is(
+                    t["func"], "core::result::Result::map_err", "core::ops::try_trait::Try::branch",
+                    "core::result::Result::map", "core::option::Option::ok_or", "core::option::Option::map"):
+                al.add(d.local)
+                changed = True
+    return al
+
+
+def take_events(body, extra_commit_takes=()):
+    evs = []
+    sc = sem_calls(body)
+    sel = selects(body)
+    in_select = {b.bb for s in sel for b in s.branches if b is not None}
+    for c in sc:
+        if c.is_(*TAKE_CALLS) and c.awaited and c.bb not in in_select:
+            evs.append(TakeEvent("await", c.done_bb, c.result, c.name.rsplit("::", 2)[-2] + "::" + c.name.rsplit("::", 1)[-1], c.loc()))
+        if c.is_(*POP_CALLS):
+            tg = None
+            for br in branches_on(body, c.result, c.done_bb):
+                if br.edge("some"):
+                    tg = br.edge("some")[1]
+            evs.append(TakeEvent("pop", tg if tg is not None else c.done_bb, c.result, c.name.rsplit("::", 1)[-1], c.loc()))
+    for s in sel:
+        for i, b in enumerate(s.branches):
+            if b is not None and b.is_(*TAKE_CALLS) and i in s.arms:
+                evs.append(TakeEvent("select-arm", s.arms[i], s.out_local,
+                                     "%s (select! branch %d)" % (b.name.rsplit("::", 1)[-1], i), b.loc()))
+    # transactional take: commit completed after a take inside the transaction
+    commits = [c for c in sc if c.is_("p2panda_store::traits::Transaction::commit") and c.awaited]
+    takes = [c for c in sc if c.is_("p2panda_stream::orderer::orderer::CausalOrderer::next",
+                                   "p2panda_store::orderer::traits::OrdererStore::take_next_ready", *extra_commit_takes)
+             and c.awaited]
+    for cm in commits:
+        for tk in takes:
+            g = guarded_by(body, cm.bb, tk.result, "some", tk.done_bb)
+            if g is not None:
+                evs.append(TakeEvent("commit", cm.done_bb, tk.result,
+                                     "commit after %s" % tk.name.rsplit("::", 1)[-1], cm.loc()))
+    return evs
+
+
+def held_yields(body, ev):
+    """Yield blocks reachable from a take event while the taken item is still owned by this future
+    (not yet returned, not yet handed over by value to a completed call)."""
+    items = payload_aliases(body, ev.item) if ev.item is not None else set()
+    handover_done = set()
+    for c in sem_calls(body):
+        for a in c.args:
+            if "move" in a:
+                p = Place(a["move"])
+                if p.local in items:
+                    handover_done.add(c.done_bb)
+    stop = set(b for b in handover_done if b is not None)
+    reach = body.reachable(ev.bb, avoid=stop)
+    ys = []
+    for bb in sorted(reach):
+        if body.blocks[bb]["term"]["t"] == "yield":
+            ys.append(bb)
+    # which await does each yield belong to
+    out = []
+    for y in ys:
+        owner = None
+        for c in sem_calls(body):
+            if c.aw is not None and c.aw.yield_bb == y:
+                owner = c
+        out.append((y, owner))
+    return out
